@@ -23,7 +23,7 @@ func init() {
 		ID:      "C16",
 		Level:   "exploration",
 		Workers: 16,
-		Rule: "request mutation over the real service: valid requests captured from correct clients in all states (due-to-create, due-to-subscribe, subscribed with and without pending operations) are mutated in one to three fields - unknown / foreign / empty / swapped DUID, unknown or empty key, wrong type, every combination of the seven option bits (read-only with and without operations, snapshot, delete, unsubscribe, error), checkpoints stale / future / huge / zero, operation lists with gaps, repeats, reordering, foreign client id, other era, emptied, 500 operations; unregistered / foreign-collection / administrative / empty client id, unknown / other / empty collection, no packs, duplicated packs - plus correct requests with a panic injected inside their handler's goroutine between lock acquisition and commit (hook pp.before-commit: the recovery path must answer, keep the process alive and release the key; also for ONE of the two handlers of a two-pack message, which must still be answered with both packs), plus ClientMessage, PatchMessage (invalid JSON, non-object JSON, key of another type, unknown collection) and CollectionMessage variants. Monitors: every call is answered (watchdog classification: a handler that ended without replying is a hang; a call that returns neither a response nor an error is not an answer), a server panic is a violation, refused (RPC error or error-bit pack) => store diff empty (volatile timestamps ignored); after every hostile request a canary client syncs the same key and another key and must be answered; after an ACCEPTED hostile request the stored log must still satisfy the structural invariants of C06 (gapless up to the recorded end, nobody acknowledged beyond what is stored). Client half: every error pack the server produced in the run and the five defined push-pull error codes are applied to a subscribed client: its error handler must be called, nothing may panic, and it must complete a normal sync of another datatype afterwards; every third case also runs the client half through the SDK's own sync path (Client.Sync() over real grpc): a lost response, a request refused at the RPC level and an error pack for one of two datatypes, in random order - after each the next Sync() must return (watchdog classification: waiting for the client's sync semaphore while no sync is under way is a hang) and succeed, the error pack must reach an error handler, and every issued operation ends up stored exactly once; " +
+		Rule: "request mutation over the real service: valid requests captured from correct clients in all states (due-to-create, due-to-subscribe, subscribed with and without pending operations) are mutated in one to three fields - unknown / foreign / empty / swapped DUID, unknown or empty key, wrong type, every combination of the seven option bits (read-only with and without operations, snapshot, delete, unsubscribe, error), checkpoints stale / future / huge / zero, operation lists with gaps, repeats, reordering, foreign client id, other era, emptied, 500 operations; unregistered / foreign-collection / administrative / empty client id, unknown / other / empty collection, no packs, duplicated packs - plus correct requests with a panic injected inside their handler's goroutine between lock acquisition and commit (hook pp.before-commit: the recovery path must answer, keep the process alive and release the key; also for ONE of the two handlers of a two-pack message, which must still be answered with both packs), plus ClientMessage, PatchMessage (invalid JSON, non-object JSON, key of another type, unknown collection), CollectionMessage and EncodingMessage (no operation, unknown operation type, undecodable body, missing id) variants. Monitors: every call is answered (watchdog classification: a handler that ended without replying is a hang; a call that returns neither a response nor an error is not an answer), a server panic is a violation, refused (RPC error or error-bit pack) => store diff empty (volatile timestamps ignored); after every hostile request a canary client syncs the same key and another key and must be answered; after an ACCEPTED hostile request the stored log must still satisfy the structural invariants of C06 (gapless up to the recorded end, nobody acknowledged beyond what is stored). Client half: every error pack the server produced in the run and the five defined push-pull error codes are applied to a subscribed client: its error handler must be called, nothing may panic, and it must complete a normal sync of another datatype afterwards; every third case also runs the client half through the SDK's own sync path (Client.Sync() over real grpc): a lost response, a request refused at the RPC level and an error pack for one of two datatypes, in random order - after each the next Sync() must return (watchdog classification: waiting for the client's sync semaphore while no sync is under way is a hang) and succeed, the error pack must reach an error handler, and every issued operation ends up stored exactly once; " +
 			"non-trivial = the request differs from any request a correct client could send (every mutated request); distinct = hash of the mutation script",
 		Assumptions: []string{
 			"only 'answered / not answered / crashed' and 'refused => unchanged' are verdicts; whatever a canary notices after an ACCEPTED hostile request (error pack, client-side panic) is recorded as a diagnostic",
@@ -363,8 +363,39 @@ func runC16(c *core.Case) *core.Result {
 	_, _ = d1, d2
 	nHostile := tierN(c.Tier, 4, 6)
 	for h := 0; h < nHostile; h++ {
-		kind := r.Intn(11)
+		kind := r.Intn(12)
 		switch {
+		case kind == 11:
+			// the encoding echo service (exposed over grpc and REST like the others) with
+			// well-formed but unexpected messages
+			variant := r.Intn(5)
+			em := &model.EncodingMessage{Type: model.TypeOfDatatype_COUNTER}
+			switch variant {
+			case 0: // no operation at all
+			case 1:
+				em.Op = &model.Operation{OpType: model.TypeOfOperation(9999), Body: []byte(`{}`)}
+			case 2:
+				em.Op = &model.Operation{ID: &model.OperationID{CUID: randUID(r)}, OpType: model.TypeOfOperation_MAP_PUT, Body: []byte(`not json`)}
+			case 3:
+				em.Op = &model.Operation{OpType: model.TypeOfOperation_COUNTER_SNAPSHOT, Body: []byte(`{"unexpected":[1,2]}`)}
+				em.Type = model.TypeOfDatatype_DOCUMENT
+			default:
+				em.Op = &model.Operation{OpType: model.TypeOfOperation_LIST_INSERT} // no id, no body
+			}
+			c.Step("hostile encoding message variant %d", variant)
+			before := x.snap()
+			answered := false
+			out := bed.Guard(10e9, func(ctx context.Context) error {
+				resp, err := w.b.Svc.TestEncodingOperation(ctx, em)
+				answered = resp != nil
+				return err
+			})
+			if res := x.emptyAnswer("TestEncodingOperation", out, answered); res != nil {
+				return res
+			}
+			if res := x.judge(fmt.Sprintf("TestEncodingOperation(variant %d)", variant), out, out.Err != nil, before); res != nil {
+				return res
+			}
 		case kind == 10:
 			// a fault INSIDE the handler: a correct request of a subscribed client panics between
 			// lock acquisition and commit (injected at the hook point pp.before-commit, in the
